@@ -388,12 +388,14 @@ def check(report: Report, repo: Repo) -> None:
             fn_nodes.append((g5.node(f"fn{i}", "call_function", k, (x5, x5, x5), {}), w))
             other_nodes.append(g5.node(f"meth{i}", "call_method", k, (x5,), {}))  # same target, other opcode: untouched
         other_nodes.append(g5.node("relu", "call_function", ExtV("torch.relu"), (x5,), {}))
+        # statements executed for their effect (an in-place method whose result nobody reads, an assertion)
+        stmt_nodes = [g5.node("clamp_", "call_method", "clamp_", (x5,), {"max": 1}), g5.node("check", "call_function", ExtV("torch._assert"), (x5, "msg"), {})]
         g5.node("output", "output", "output", (tuple(n_ for n_, _w in fn_nodes) + tuple(other_nodes),), {})
         gm5 = Obj("torch.fx.GraphModule", attrs={"graph": g5.obj}, term=T("param", ("gm",)))
         it5.events = []
         out = it5.call_function(backend, [gm5, O("example_inputs")], {})
         raised = [e["exc"] for e in it5.events if e.kind == "raise"]
-        calls_now = [(n_.attrs["op"], n_.attrs["target"]) for n_ in g5.nodes if n_.attrs["op"] in ("call_function", "call_method")]
+        calls_now = [(n_.attrs["op"], n_.attrs["target"]) for n_ in g5.nodes if n_.attrs["op"] in ("call_function", "call_method") and not any(n_ is m_ for m_ in stmt_nodes)]
         want = []
         for (n_, w), m_ in zip(fn_nodes, other_nodes):
             want.append(("call_function", w))
@@ -403,6 +405,8 @@ def check(report: Report, repo: Repo) -> None:
         report.add("R5-backend", f"{cons}::sweep", ok, "exactly the call_function nodes whose target is in the map are rewritten (to that target's wrapper), in graph order; other opcodes and other targets are untouched", [f"{o}:{fmt(t)}" for o, t in calls_now], [f"{o}:{fmt(t)}" for o, t in want])
         untouched = all(any(n_ is m_ for n_ in g5.nodes) for m_ in other_nodes)
         report.add("R5-backend", f"{cons}::others", untouched, "nodes that are not linear / attention calls are the same node objects as before", "kept" if untouched else "replaced", "kept", nontrivial=False)
+        kept_stmts = all(any(n_ is m_ for n_ in g5.nodes) for m_ in stmt_nodes)
+        report.add("R5-backend", f"{cons}::statements", kept_stmts, "nodes without users (in-place method calls, assertions) are part of the computation and survive the rewrite (no dead-code elimination)", [m_.attrs["name"] for m_ in stmt_nodes if not any(n_ is m_ for n_ in g5.nodes)], [])
         report.add("R5-backend", f"{cons}::lint", g5.linted >= 1, "graph.lint() is called after the rewrite", g5.linted, ">=1", nontrivial=False)
         ot = TM.term_of(out)
         okr = isinstance(ot, T) and ot.op == "call" and "GraphModule" in str(ot.args[0])
